@@ -20,6 +20,7 @@ before it (or free Verus text when outside an @extract block).
     @loop ORD / payload                  clauses inserted between loop head and loop body
     @before "PREFIX" [#K] / payload      insert before K-th statement starting with PREFIX
     @after "PREFIX" [#K] / payload       insert after that (';'-terminated) statement
+    @closurespec "PREFIX" / payload      requires/ensures of the closure in the statement starting with PREFIX
     @bodystart / payload                 insert right after the opening brace of the fn body
     @atend / payload                     insert just before the closing brace of the fn body
     @beforeloop|@afterloop|@loopstart|@loopend ORD / payload   around / inside the ORD-th loop
@@ -422,6 +423,27 @@ class Extractor:
                 pos = {"beforeloop": lp["kw_pos"], "afterloop": lp["close"] + 1,
                        "loopstart": lp["open"] + 1, "loopend": lp["close"]}[n]
                 add(pos, pos, "\n" + d.text() + "\n", ("ins", cur_label, n + " " + d.arg.strip(), d.line))
+            elif n == "closurespec":
+                # @closurespec "stmt prefix": clauses for the closure `|..| [-> T] { .. }` in that statement, inserted before its body
+                need_fn(d)
+                idx, pos = find_stmt(d, d.arg)
+                toks = cur.toks
+                q = idx
+                while toks[q].text != "|" and toks[q].text != "||":
+                    q += 1
+                if toks[q].text == "|":
+                    q += 1
+                    while toks[q].text != "|":
+                        q = cur.br[q] + 1 if (toks[q].kind == "punct" and toks[q].text in ("(", "[")) else q + 1
+                q += 1
+                arrow = q if toks[q].text == "->" else None
+                while toks[q].text != "{":
+                    q = cur.br[q] + 1 if (toks[q].kind == "punct" and toks[q].text in ("(", "[")) else q + 1
+                mret = re.search(r"\bret\s+([A-Za-z_][A-Za-z0-9_]*)\s*$", d.arg)
+                if arrow is not None and mret:
+                    add(toks[arrow + 1].start, toks[arrow + 1].start, "(" + mret.group(1) + ": ", ("ins", cur_label, "closure ret"))
+                    add(toks[q - 1].end, toks[q - 1].end, ")", ("ins", cur_label, "closure ret"))
+                add(toks[q].start, toks[q].start, "\n" + d.text() + "\n", ("ins", cur_label, "closurespec " + d.arg, d.line))
             elif n == "loopinit":
                 continue    # consumed by rule R1 (ghost code between the iterator binding and the loop)
             elif n == "before":
